@@ -206,7 +206,22 @@ def ROp.dstOk (n : Nat) : ROp → Bool
   | .op o => Op.dstOk n o
   | .bindAlias d _ => d ≤ n
 
+/-- `d - key` / `d - [keys]` (`dictattr.__sub__`, inherited by dictable): a NEW table without these columns, i.e. the projection on
+the remaining ones; absent keys are ignored.  Wire sugar: the line is turned into the `proj` operation it equals. -/
+def desugarSub (s : St) (args : List Sexp) : Option (String × List Sexp) :=
+  match args with
+  | [dst, h, ks] => do
+      let hn ← handleOf h
+      let ks ← strsOf ks
+      let t ← ((s.view[hn]?).bind id)
+      let rest := (t.map (·.1)).filter (fun c => !ks.contains c)
+      -- no column left: the table without columns (`d[[]]` would keep the columns, `d - all` does not)
+      if rest.isEmpty then pure ("new", [dst, Sexp.atom "N", Sexp.atom "N", Sexp.node [Sexp.atom "D"]]) else
+      pure ("proj", [dst, h, Sexp.node (Sexp.atom "L" :: rest.map fun c => Sexp.atom ("S:" ++ hexEncode c))])
+  | _ => Option.none
+
 def handle (s : St) (op : String) (args : List Sexp) : Option (St × String) := do
+  let (op, args) ← if op == "sub" then desugarSub s args else some (op, args)
   let o ← parseROp op args
   if !ROp.dstOk s.ptr.length o then Option.none
   let (s', out) := rstep s o
